@@ -40,7 +40,7 @@ META = {'design_ref': 'DESIGN.md section 7 / C06',
  'level_text': 'Coq theorems about the packet-id allocator for EVERY cursor position and EVERY set of reserved ids (pure list arithmetic, no enumeration): '
                'C06_alloc_ok (the id is in 1..65535, was free, is reserved for the operation afterwards, the table stays sorted and in range), '
                'C06_alloc_exhausted_only_when_full (failure only when all 65535 ids are reserved), C06_alloc_never_panics, C06_alloc_rotating (first free id '
-               'at or after the cursor, cyclically, wrap 65535 -> 1). Engine-wide, over ALL event histories (induction over runs; WF invariant of '
+               'at or after the cursor, cyclically, wrap 65535 -> 1), C06_alloc_succeeds_below_capacity (fewer than 65535 ids reserved => the allocation succeeds, for every cursor: pigeonhole over 1..65535), C06_alloc_cursor_wraps (new cursor = successor of the chosen id, 65535 -> 1; only cursor and table change), C06_alloc_seq_distinct / C06_alloc_seq_succeeds (ANY number of consecutive allocations: pairwise distinct fresh ids, all succeeding while the table has room). Engine-wide, over ALL event histories (induction over runs; WF invariant of '
                'EngineProofs/WF*.v): C06_nonzero_unique (in every reachable state an operation bound to an id holds an id in 1..65535 that is reserved for it, '
                'and no other operation is bound to it), C06_no_leak (every reserved id belongs to an incomplete operation bound to it: no operations, no '
                'reserved ids), C06_retransmission_same_id (every operation surviving a connection close keeps its id); C06_instance_nonzero_unique / '
